@@ -94,7 +94,7 @@ func (l *Loader) Load(path string) (*ResolvedJournal, []LoadError) {
 		}}
 	}
 
-	return l.loadWithContent(path, string(content), make(map[string]bool))
+	return l.loadWithContent(path, string(content), newLoadState(), 0)
 }
 
 func (l *Loader) LoadFromContent(path, content string) (*ResolvedJournal, []LoadError) {
@@ -106,20 +106,26 @@ func (l *Loader) LoadFromContent(path, content string) (*ResolvedJournal, []Load
 			Message: fmt.Sprintf("file too large: %d bytes (max %d)", len(content), limits.MaxFileSizeBytes),
 		}}
 	}
-	return l.loadWithContent(path, content, make(map[string]bool))
+	return l.loadWithContent(path, content, newLoadState(), 0)
 }
 
-func (l *Loader) loadWithContent(path, content string, visited map[string]bool) (*ResolvedJournal, []LoadError) {
-	var errors []LoadError
-	limits := l.getLimits()
+// loadState tracks one resolution: the files currently being included (the
+// chain of ancestors, used for cycle detection) and every file loaded so far
+// (so that a file reached along several paths is loaded once).
+type loadState struct {
+	ancestors map[string]bool
+	loaded    map[string]bool
+}
 
-	if len(visited) >= limits.MaxIncludeDepth {
-		return nil, []LoadError{{
-			Kind:    ErrorCycleDetected,
-			Path:    path,
-			Message: fmt.Sprintf("include depth limit exceeded (%d)", limits.MaxIncludeDepth),
-		}}
+func newLoadState() *loadState {
+	return &loadState{
+		ancestors: make(map[string]bool),
+		loaded:    make(map[string]bool),
 	}
+}
+
+func (l *Loader) loadWithContent(path, content string, state *loadState, depth int) (*ResolvedJournal, []LoadError) {
+	var errors []LoadError
 
 	journal, parseErrs := parser.Parse(content)
 	for _, e := range parseErrs {
@@ -137,7 +143,9 @@ func (l *Loader) loadWithContent(path, content string, visited map[string]bool) 
 	}
 
 	result := NewResolvedJournal(journal)
-	visited[path] = true
+	state.ancestors[path] = true
+	state.loaded[path] = true
+	defer delete(state.ancestors, path)
 
 	for _, inc := range journal.Includes {
 		if IsGlobPattern(inc.Path) {
@@ -153,7 +161,7 @@ func (l *Loader) loadWithContent(path, content string, visited map[string]bool) 
 			}
 
 			for _, matchPath := range matches {
-				subErrors := l.loadSingleInclude(path, matchPath, inc.Range, visited, result)
+				subErrors := l.loadSingleInclude(path, matchPath, inc.Range, state, depth, result)
 				errors = append(errors, subErrors...)
 			}
 			continue
@@ -170,7 +178,7 @@ func (l *Loader) loadWithContent(path, content string, visited map[string]bool) 
 			continue
 		}
 
-		subErrors := l.loadSingleInclude(path, includePath, inc.Range, visited, result)
+		subErrors := l.loadSingleInclude(path, includePath, inc.Range, state, depth, result)
 		errors = append(errors, subErrors...)
 	}
 
@@ -180,13 +188,14 @@ func (l *Loader) loadWithContent(path, content string, visited map[string]bool) 
 func (l *Loader) loadSingleInclude(
 	basePath, includePath string,
 	incRange ast.Range,
-	visited map[string]bool,
+	state *loadState,
+	depth int,
 	result *ResolvedJournal,
 ) []LoadError {
 	var errors []LoadError
 	limits := l.getLimits()
 
-	if visited[includePath] {
+	if state.ancestors[includePath] {
 		errors = append(errors, LoadError{
 			Kind:    ErrorCycleDetected,
 			Path:    includePath,
@@ -196,10 +205,25 @@ func (l *Loader) loadSingleInclude(
 		return errors
 	}
 
+	if state.loaded[includePath] {
+		return errors
+	}
+
+	if depth+1 >= limits.MaxIncludeDepth {
+		errors = append(errors, LoadError{
+			Kind:    ErrorCycleDetected,
+			Path:    includePath,
+			Message: fmt.Sprintf("include depth limit exceeded (%d)", limits.MaxIncludeDepth),
+			Range:   incRange,
+		})
+		return errors
+	}
+
 	l.mu.RLock()
 	cached, ok := l.cache[includePath]
 	l.mu.RUnlock()
 	if ok {
+		state.loaded[includePath] = true
 		result.Files[includePath] = cached
 		result.FileOrder = append(result.FileOrder, includePath)
 		return errors
@@ -237,7 +261,7 @@ func (l *Loader) loadSingleInclude(
 		return errors
 	}
 
-	subResult, subErrors := l.loadWithContent(includePath, string(incContent), visited)
+	subResult, subErrors := l.loadWithContent(includePath, string(incContent), state, depth+1)
 	errors = append(errors, subErrors...)
 
 	if subResult != nil && subResult.Primary != nil {
